@@ -1,4 +1,5 @@
 import TinyFlux.Audit.Tool
 import TinyFlux.Props.C10
 import TinyFlux.Props.C10State
+import TinyFlux.Props.C10Witness
 #audit TinyFlux.Props.C10
